@@ -514,7 +514,8 @@ class _ChildrenList(_TaskList):
             else:
                 new_list.insert(new_list.index(after) + 1, task)
 
-        self._list = new_list
+        # in place: other views of the same children list (task.children called earlier) must not go stale
+        self._list[:] = new_list
         self.__setter(self._list)
 
     def sort(self, key: Union[str, List[str]], reverse=False) -> None:
@@ -523,12 +524,13 @@ class _ChildrenList(_TaskList):
         :param key: attribute name or list of attribute names
         :param reverse: reverse sort
         """
+        # in place: other views of the same children list (task.children called earlier) must not go stale
         if type(key) is str:
-            self._list = sorted(self._list, key=lambda x: x.__getattribute__(key), reverse=reverse)
+            self._list[:] = sorted(self._list, key=lambda x: x.__getattribute__(key), reverse=reverse)
         elif type(key) is list or type(key) is tuple or type(key) is set:
-            self._list = sorted(self._list,
-                                key=lambda x: '-'.join([str(x.__getattribute__(k)) for k in key]),
-                                reverse=reverse)
+            self._list[:] = sorted(self._list,
+                                   key=lambda x: '-'.join([str(x.__getattribute__(k)) for k in key]),
+                                   reverse=reverse)
         else:
             raise RuntimeError(f"Unsupported key type {type(key)}")
 
@@ -550,7 +552,7 @@ class _ChildrenList(_TaskList):
             new_list.append(ch)
             _all.remove(ch)
 
-        self._list = new_list + _all
+        self._list[:] = new_list + _all
         self.__setter(self._list)
 
 
